@@ -36,7 +36,8 @@ def cases(tier, seed):
     for i in range(n):
         rng = gen.rng_for(seed, ID, i)
         cls = i % 4
-        kw = dict(seasons=(1, 3), p_gw=0.25, p_custom=0.3, p_dz=0.5, zgrid_off=(cls in (0, 1)))
+        kw = dict(seasons=(1, 3), p_gw=0.25, p_custom=0.3, p_dz=0.5, zgrid_off=(cls in (0, 1)),
+                  flags=(i % 3 == 0), hostile=(i % 5 == 0), dry=(i % 6 == 0))
         if cls == 1:
             kw.update(crops=deep)
         elif cls == 2:
